@@ -115,6 +115,10 @@ func caseSeed(seed uint64, prop string, idx int) uint64 {
 func RunIndex(p Property, seed uint64, idx int, tier string) RunOut {
 	cs := caseSeed(seed, p.ID(), idx)
 	c := p.Gen(simrt.NewRand(cs), idx, tier)
+	if f := os.Getenv("VERIF_DUMPCASE"); f != "" {
+		b, _ := json.Marshal(c)
+		os.WriteFile(f, b, 0o644) // debugging aid for `fsim one`
+	}
 	out := p.Exec(c, nil)
 	out.Index = idx
 	out.Seed = cs
